@@ -45,9 +45,13 @@ def run(c):
               "groups, no groups = fast path, multi-byte, (?s) multi-line, Where filters on Text / Line / Node, At(), Suggest), rule families "
               "that match the same comments and mostly reject, MatchComment calls with 2..4 regexps that bind the same names at different "
               "group indices (8 fixed + seeded random ones; comments hit by every single alternative and by every ordered pair of "
-              "alternatives), seeded random rules at random load positions, three rules files; comments: line and block, after code and "
-              "after multi-byte strings, adjacent, multi-line, empty, at EOF, with CRLF inside block comments, four target files (one a "
-              "later version at the same path) in one FileSet through one RunnerState; TruncateLen 0 and 15; non-trivial = a report was "
+              "alternatives), 15 regexps with assertions (^ $ \\A \\z \\b \\B (?m); every core text alone, behind / in front of other text, in a block "
+              "comment, on a line of its own, twice), 16 regexps with loose ends (greedy / lazy .* .+ \\s*, (?s) (?U) (?i), first-written alternative; "
+              "with and without groups), seeded random rules at random load positions, three rules files; comments: line and block, after code and "
+              "after multi-byte strings, adjacent, multi-line, empty, at EOF, with CRLF inside block comments; eight target files in one FileSet run "
+              "as a history of one RunnerState: four versions of one path (longer; rewritten with the same byte length and modification time; the "
+              "first bytes again) adjacent in one pass and interleaved with other paths in the other, a file that is not on disk, a file whose "
+              "//line directives name an existing file; TruncateLen 0 and 15; non-trivial = a report was "
               "expected or produced (distinct by comment bytes, offset, file, TruncateLen), a pattern with named groups, a call with several regexps")
     c.trusted += [
         "Go regexp as an oracle: leftmost match and submatch indices (FindStringSubmatchIndex), SubexpNames -- inputs of the model",
